@@ -14,6 +14,7 @@ from .. import straight as S
 from ..facts import facts_of
 from ..contract import entry, refusals, unpermitted, isinstance_of, describe_alt
 from ..pathsum import summarize
+from .. import shape
 from ..terms import fn_terms
 from ..model import inline_locals
 
@@ -166,7 +167,7 @@ def _check_mapping(repo, r1, r2, ci):
         okm = bool(paths)
         for ps in paths:
             seeks = [c for _n, c, _f in ps.calls if c[0] == "call" and c[1][0] == "method" and c[1][2] == "seek"]
-            if not seeks or not all(c[1][1] in (FILE, FILE2) and c[2] and c[2][0] in offs and (len(c[2]) == 1 or c[2][1] == ("const", 0)) for c in seeks):
+            if not seeks or not all(c[1][1] in (FILE, FILE2) and c[2] and c[2][0] in offs and (len(c[2]) == 1 or c[2][1] in (("const", 0), ("fn", "os.SEEK_SET"), ("fn", "io.SEEK_SET"))) for c in seeks):
                 okm = False
             if nm == "_get_bytes_by_index":
                 R_ = [("call", ("method", fl, "read"), (ISZ,), ()) for fl in (FILE, FILE2)]
@@ -413,6 +414,32 @@ def _check_files(repo, r4, ci):
     r4.require(closes and bool(meta_rm) and all_chunks, rel, "release removes exactly the array's files", "release no longer closes and removes <path>_meta and <path>_<k> for every k < file_num")
 
 
+def _full_index_loop(fi):
+    """(loop variable, loop statement) of a loop that visits 0, 1, .., len(self) - 1 in this order: `for v in range(len(self))`
+    or the while loop with a counter from 0, step 1, condition counter < len(self) (the length may be read once before the loop)."""
+    for lp in ast.walk(fi.node):
+        if isinstance(lp, ast.For) and isinstance(lp.target, ast.Name) and unparse(lp.iter) in ("range(len(self))", "range(0, len(self))", "range(0, len(self), 1)"):
+            return lp.target.id, lp
+    try:
+        sm = shape.summary(fi.node)
+    except shape.NoShape:
+        return None
+    if sm.kind != "while" or sm.cond is None:
+        return None
+    c = sm.cond
+    LEN = ("call", ("fn", "len"), (("var", "self"),), ())
+    if c[0] == "cmp" and len(c[1]) == 1:
+        v = None
+        if c[1][0] == "Lt" and c[2][1] == LEN and c[2][0][0] == "var":
+            v = c[2][0][1]
+        if c[1][0] == "Gt" and c[2][0] == LEN and c[2][1][0] == "var":
+            v = c[2][1][1]
+        if v is not None and sm.init.get(v) == ("const", 0) and sm.step.get(v) == ("cat", (("var", v), ("const", 1))):
+            # the counter is advanced at the end of the body: nothing after the increment may use it
+            return v, sm.loop
+    return None
+
+
 # ---------------------------------------------------------------------------------------------------------------- R19.5
 def _check_delete(repo, r5, ci):
     wrap = repo.cls(PA, "SPFLBArray")
@@ -440,23 +467,15 @@ def _check_delete(repo, r5, ci):
                 okz = True
     r5.require(okz, z, "zero-fill through __setitem__", "_set_all_zeros_by_index no longer assigns item_size zero bytes through __setitem__")
     cl = iface.methods.get("clear")
-    okcl = False
-    for lp in [x for x in ast.walk(cl.node) if isinstance(x, ast.For)]:
-        if unparse(lp.iter) in ("range(len(self))", "range(0, len(self))") and isinstance(lp.target, ast.Name) and any(
-                isinstance(d, ast.Delete) and [unparse(t) for t in d.targets] == ["self[%s]" % lp.target.id] for d in ast.walk(lp)):
-            okcl = True
+    var = _full_index_loop(cl)
+    okcl = var is not None and any(isinstance(d, ast.Delete) and [unparse(t) for t in d.targets] == ["self[%s]" % var[0]] for d in ast.walk(var[1]))
     if any(isinstance(d, ast.Delete) and [unparse(t) for t in d.targets] == ["self[:]"] for d in ast.walk(cl.node)):
         okcl = True
     r5.require(okcl, cl, "clear covers range(len(self))", "clear no longer deletes every index")
     it = iface.methods.get("__iter__")
-    okit = False
-    for ps in summarize(it, unroll=1):
-        ys = [c for _n, c, _f in ps.calls if c[0] == "yield"]
-        if ys and all(y[1] == ("sub", ("var", "self"), ("elem", ("call", ("fn", "range"), (("call", ("fn", "len"), (("var", "self"),), ()),), ()))) for y in ys):
-            okit = True
+    var = _full_index_loop(it)
+    okit = var is not None and any(isinstance(y, ast.Yield) and y.value is not None and unparse(y.value) == "self[%s]" % var[0] for y in ast.walk(var[1]))
     r5.require(okit, it, "iteration covers range(len(self))", "__iter__ no longer yields every index")
-    # membership / search / reversal are the Sequence mixins over __getitem__ and __len__ (item by item): a byte-level shortcut over
-    # the chunk files does not respect item boundaries
     for c2 in (wrap, ci):
         for nm in ("__contains__", "index", "count", "__reversed__"):
             if nm in c2.methods:
